@@ -159,6 +159,8 @@ func (o Op) String() string {
 		return fmt.Sprintf("v%d.%s(%s)", o.R, o.Kind, o.Mp)
 	case "HashNew", "MapEntries":
 		return o.xString()
+	case "Access":
+		return o.aString()
 	}
 	return fmt.Sprintf("v%d.%s()", o.R, o.Kind)
 }
